@@ -56,8 +56,9 @@ def selftest(prop: str, repo: str, run: Run) -> None:
             if not os.path.exists(mp) or not os.path.exists(os.path.join(seeded, d, "patch.diff")):
                 continue
             meta = json.load(open(mp))
-            if d.startswith(("benign", "B-", "B3-")):
-                expect[d] = "silent"
+            if d.startswith(("benign", "B-", "B3-", "B4-", "B5-", "B6-")):
+                # behaviour-preserving: silent, or - for the few variants recorded as outside what the extractor follows - exit 2
+                expect[d] = "analysis-error" if prop in meta.get("analysis_errors", {}) else "silent"
                 jobs.append((prop, repo, os.path.join(seeded, d)))
             elif prop in meta.get("detected_by", {}):
                 expect[d] = "report"
@@ -72,7 +73,7 @@ def selftest(prop: str, repo: str, run: Run) -> None:
             rows.append({"variant": name, "result": rc})
             continue
         want = expect[name]
-        good = (rc == 1) if want == "report" else (rc == 0)
+        good = (rc == 1) if want == "report" else (rc == 2) if want == "analysis-error" else (rc == 0)
         ok += good
         bad += (not good)
         rows.append({"variant": name, "expected": want, "exit": rc, "rules": rules[:4], "as_expected": good})
